@@ -34,8 +34,10 @@ THEOREMS = [
 ]
 NOTES = [
     "the theorems hold for EVERY schedule of the abstract two-thread machine (each list operation of the real "
-    "handlers is one atomic step); what ties the machine to the code: three protocol facts translated from the "
-    "source, one observed on the imported module (terminate() of an ended thread), and real runs under schedules "
+    "handlers is one atomic step); what ties the machine to the code: three protocol facts computed in Lean from "
+    "decision trees of timeout() / _stop_mocking / the TimeoutError handler (read from the AST with helpers inlined "
+    "and locals followed, and measured on instrumented objects as fallback and cross-check), one observed on the "
+    "imported module (terminate() of an ended thread), and real runs under schedules "
     "forced through the guarded hooks at 8 coarse placements of the student "
     "thread's finalization (finer interleavings cannot be forced on CPython and are covered by the theorems only)",
     "assumed, not modelled: the student thread's _execute prologue completes before the time limit; preemption "
@@ -302,6 +304,20 @@ def correspond(rng, tier, driver):
     _, kv = parse_kv(ans)
     cfg = {"claim": kv["claim"] == "1", "pops": kv["pops"] == "1", "bumps": kv["bumps"] == "1",
            "tolerant": kv["tolerant"] == "1"}
+    # what Lean computed from the generated trees: verdict per fact (k...), and what each source (reading the AST /
+    # measuring the running code) establishes on its own.  `?` = not established / contradictory / half a protocol.
+    res.distribution["protocol_facts"] = {k: v for k, v in kv.items() if k not in ("claim", "pops", "bumps", "tolerant")}
+    unknown = [k[1:] for k in ("kclaim", "kpops", "kbumps") if kv.get(k) == "?"]
+    if unknown:
+        # the machine is instantiated with "absent" for such a fact (so the proofs fail); say why, loudly
+        res.evaluations += 1
+        res.disagreements.append({"case": {"protocol_facts": unknown}, "model": None,
+                                  "real": "the translator could not establish: %s (grader side of the claim protocol=%s, student "
+                                          "side=%s; AST/probe: grader %s/%s, student %s/%s, pops %s/%s, bumps %s/%s)" % (
+                                      ", ".join(unknown), kv.get("kgrader"), kv.get("kstudent"), kv.get("graderast"),
+                                      kv.get("graderprobe"), kv.get("studentast"), kv.get("studentprobe"), kv.get("popsast"),
+                                      kv.get("popsprobe"), kv.get("bumpsast"), kv.get("bumpsprobe")),
+                                  "fields": ["unknown-protocol-fact"]})
     scs = scenario_list(rng, tier)
     obs = run_real(scs, tier)
     res.observations = obs
